@@ -191,7 +191,7 @@ def mem_trace(kinds, rows, sep, esc, op='mem', form=0):
     return make_trace(op, kinds, rows, sep, esc, results, extra)
 
 
-def file_trace(kinds, rows, sep, esc):
+def file_trace(kinds, rows, sep, esc, second_pass=False):
     """dump_to_file / load_from_file(encoding='utf-8'); the file is read by the real
     code in chunks of 64 Ki characters.  An error ends the stream: the rows behind
     the failing one are not observed (dropped from the trace, counted)."""
@@ -213,8 +213,12 @@ def file_trace(kinds, rows, sep, esc):
         got, err = [], []
         parser = csv.create_line_parser(dtype=dtype, separator=sep, escapechar=esc)
         try:
-            csv.load_from_file(path, parser, encoding='utf-8').subscribe(
-                on_next=got.append, on_error=err.append)
+            loaded = csv.load_from_file(path, parser, encoding='utf-8')
+            if second_pass:
+                # the observable returned by load_from_file is subscribed a second time
+                # (a second pass over the file): the second pass is the one that is judged
+                loaded.subscribe(on_next=lambda i: None, on_error=lambda e: None)
+            loaded.subscribe(on_next=got.append, on_error=err.append)
         except Exception as e:
             err.append(e)
     lines = text.split('\n')[1:]
@@ -582,11 +586,41 @@ def main(tier, replay):
                 rows += rr
                 if sum(sum(len(str(v)) + 3 for v in r) for r in rows) < target:
                     continue
-                t = file_trace(kinds, rows, sep, esc)
+                t = file_trace(kinds, rows, sep, esc, second_pass=(n % 2 == 1))
                 if t['file']['chars'] >= target:
                     break
             t['profile'] = 'no-trailing-escape' if clean else 'any'
             file_infos.append(dict(t['file'], sep=sep, esc=esc, schema=kinds, profile=t['profile']))
+            traces.append(t)
+        # multi-byte characters straddling the 64 KiB read boundary (byte offset 65536 falls
+        # inside a character): the padding of the first row is searched for such an alignment
+        def dumped_bytes(rows):
+            import rx
+            import rxsci.container.csv as csv
+            X = namedtuple('X', ['c0', 'c1'])
+            out = []
+            rx.from_([X(*r) for r in rows]).pipe(csv.dump(separator=',', escapechar='\\')).subscribe(
+                on_next=out.append)
+            return ''.join(out).encode('utf-8')
+        for k in (range(4) if thorough else range(2)):
+            body = []
+            j = 0
+            while sum(len(r[1].encode('utf-8')) + 8 for r in body) < 70000:
+                j += 1
+                body.append((j, ''.join(rng.choice(['\u00e9', '\u20ac', '\U0001f600', '\ufeff', 'a'])
+                                        for _ in range(rng.randint(5, 25)))))
+            rows = None
+            for off in range(0, 40):
+                cand = [(0, 'x' * off)] + body
+                data = dumped_bytes(cand)
+                if len(data) > 65536 and (data[65536] & 0xC0) == 0x80:
+                    rows = cand
+                    break
+            if rows is None:
+                rows = [(0, '')] + body
+            t = file_trace('is', rows, ',', '\\', second_pass=(k % 2 == 1))
+            t['profile'] = 'multibyte-character-across-byte-65536'
+            file_infos.append(dict(t['file'], sep=',', esc='\\', schema='is', profile=t['profile']))
             traces.append(t)
         v, st = validate(traces, merge_variant, rows_per_run=per_run)
         return traces, v, st, nrand, file_infos
